@@ -219,7 +219,7 @@ def run_case(case):
             counters["qr_nonvacuous_clusters"] += nv
             counters["max_ratio_cluster"] = max(counters["max_ratio_cluster"], worst)
             # the documented stopping rule: relative change of the estimate <= tolerance (or max_iterations reached)
-            verdict, J, M = matref.stop_rule_check(outd, Ad, Q0t.to(D), K, tol, u, gen)
+            verdict, J, M = matref.stop_rule_check(outd, Ad, Q0t.to(D), K, tol, u, gen, work_dtype=out.dtype)
             counters["stop_rule_" + verdict] = counters.get("stop_rule_" + verdict, 0) + 1
             if verdict == "violated":
                 raise Violation(f"QR method: the output matches the orthogonal iteration after {M} step(s), but the documented stopping rule (relative change <= tolerance {tol}, at most {K} iterations) stops after {J}", **desc)
